@@ -10,6 +10,8 @@ NOTE = ("Trusts rustc nightly (type check, MIR construction, trait resolution), 
 CHECKS = {
  "C01": ("Structural discipline of the bump position: single writer family with classified value provenance (R1), hand-out <=> bump in the allocation primitive and no write in prepare primitives (R2), is-last/align_fits gates on every in-place path (R3), slow-path ordering (R4).",
          "Not decided: the integer arithmetic of bump_up/bump_down (C11), users' unsafe contracts."),
+ "C13": ("Settings gates: position writes of deallocate bodies depend on S::DEALLOCATES, of shrink bodies on S::SHRINKS (R1); WithoutDealloc/WithoutShrink are no-ops exactly where promised (R2); reclaim writes the block's boundary, in-place upward grow keeps the address (R3); only tabled operations can move the position backwards (R4).",
+         "Not decided: 'the same address again' as a number (needs the arithmetic of C11)."),
  "C02": ("Copy length/source of every reallocation (R1), overlap-aware copies (R2), zeroing extents and zeroed->zeroed forwarding (R3), no raw writes reachable from non-reallocating arena operations (R4).",
          "Not decided: byte values themselves."),
 }
